@@ -2,10 +2,10 @@
    the harness drove through a live session pair of the real implementation.
    case inputs  = (SRVOPS CLIOPS MSGS PROBES)
      op     = (ssub nPARENT PLUGS) | (sroute sKIND nROUTER nHID zHSTAT PLUGS)
-            | (sunk sKIND nHID zHSTAT PLUGS) | (sleft PLUGS) | (sright PLUGS)
+            | (sunk sKIND nHID zHSTAT PLUGS) | (sleft PLUGS) | (sright PLUGS) | (sremove nPLUGINID)
      plugin = (nID (nSTAGE ...) (nREFUSINGSTAGE ...))     kind = scall | spush
      msg    = (sKIND nHID sFAULT)  (fault = snone | snopool | sbadreply)   probe = (nOLDCAP nNEWLEN)
-   observations = ((MSGOBS ...) (nCAP ...))
+   observations = ((MSGOBS ...) (nCAP ...) (sBOOL ...))     the last list: did the k-th Remove return an error
      msgobs = (sWRITTEN CLITRACE CLIPRH SRVPRH SRVTRACE (nHID ...) zSTATUS)          *)
 From Coq Require Import Strings.String Strings.Byte.
 From Coq Require Import List Arith NArith ZArith Bool Lia.
@@ -64,6 +64,7 @@ Definition op_of (v : val) : option op :=
         | _, _ => None
         end
       else None
+  | VL [t; VN nm] => if sym_eqb t "remove" then Some (ORemove nm) else None
   | VL [t; VL ps] =>
       if sym_eqb t "left" then option_map OLeft (plugins_of ps)
       else if sym_eqb t "right" then option_map ORight (plugins_of ps)
@@ -78,6 +79,18 @@ Fixpoint ops_of (l : list val) : option (list op) :=
               | Some o, Some os => Some (o :: os)
               | _, _ => None
               end
+  end.
+
+(* the error value of every PluginContainer.Remove of a history, in order *)
+Fixpoint remove_errs (st : pstate) (ops : list op) : list val :=
+  match ops with
+  | [] => []
+  | o :: r =>
+      let here := match o with ORemove nm => [vbool (remove_err st nm)] | _ => [] end in
+      match step st o with
+      | Some st' => here ++ remove_errs st' r
+      | None => here
+      end
   end.
 
 Definition fault_of (v : val) : option fault :=
@@ -189,7 +202,8 @@ Definition run (inp : val) : option val :=
       | Some sops, Some cops, Some ms =>
           match Plugins.run sops, Plugins.run cops with
           | Some srv, Some cli =>
-              Some (VL [VL (map (fun fm => res_val (exchange_f (fst fm) cli srv (snd fm))) ms); VL (map probe_val probes)])
+              Some (VL [VL (map (fun fm => res_val (exchange_f (fst fm) cli srv (snd fm))) ms); VL (map probe_val probes);
+                        VL (remove_errs init_state sops ++ remove_errs init_state cops)])
           | _, _ => None
           end
       | _, _, _ => None
